@@ -10,7 +10,13 @@ import (
 	"verif/internal/core"
 )
 
-func init() { Registry["C03"] = c03 }
+func init() {
+	Registry["C03"] = c03
+	// ValidationResults.JoinErrors joins the errors of all intents and HasErrors is true iff some intent has one
+	// (C04.RESULTS decides both halves): under HasErrors() the joined error is not nil. A helper that validates and
+	// returns JoinErrors() on that branch therefore hands a non-nil error to its caller.
+	core.NonNilWhen["types.ValidationResults.JoinErrors"] = "types.ValidationResults.HasErrors"
+}
 
 // isEffectCall: the two ways the datastore changes the world — writing the
 // device (target.Target.Set) and writing a store (cache.Client.Modify).
